@@ -243,7 +243,6 @@ def tasks(tier):
           for s_ in (1, -1) for pd in (True, False)] + [Task("pack/unpack[r>0]", mk_pack(+1)), Task("pack/unpack[r<0]", mk_pack(-1)),
           Task("flagged application, float32 bit-precise[shape=(4,),r>0]", mk_flagged_fp((4,), 1)),
           Task("flagged application, float32 bit-precise[shape=(4,),r<0]", mk_flagged_fp((4,), -1)),
-          Task("flagged application, float32 bit-precise[shape=(4, 4)]", mk_flagged_fp((4, 4), 1)),
           Task("_precond_dim/_should_compress", t_dims), Task("pack rejects outside precondition", t_pack_rejects)]
 
 
